@@ -1,0 +1,45 @@
+//go:build verif
+
+package oauth2
+
+// Contracts for /verif (contract-based deductive verification of the real
+// code). Comment-only: no code; visible only with the build tag "verif".
+//
+//@ func (*OAuth2).End
+//@   property C01 C03 C14 C18
+//@   let provider = str_lower(filepath_base(r.URL.Path))
+//@   invariant loop#1 ctx_user_kept: ctxuser(r) == user
+//@   -- C14: nothing happens unless this browser's session holds a state and the
+//@   -- callback carries exactly that value
+//@   ensures[C14,C01] state_guard:
+//@       (each CallFuncValue(_) => sess_has(r, SessionOAuth2State) && form(r, "state") == sess(r, SessionOAuth2State)) &&
+//@       (each Store.NewFromOAuth2(_, _) => sess_has(r, SessionOAuth2State) && form(r, "state") == sess(r, SessionOAuth2State)) &&
+//@       (each Store.SaveOAuth2(_) => sess_has(r, SessionOAuth2State) && form(r, "state") == sess(r, SessionOAuth2State)) &&
+//@       (each Sess.Put(_, _) => sess_has(r, SessionOAuth2State) && form(r, "state") == sess(r, SessionOAuth2State)) &&
+//@       (each Fire(_, _, _, _, _) => sess_has(r, SessionOAuth2State) && form(r, "state") == sess(r, SessionOAuth2State))
+//@   -- C14: the state is spent before the callback does anything else
+//@   ensures[C14] state_spent:
+//@       (each CallFuncValue(_) => (before Sess.Del(SessionOAuth2State)) && (before Sess.Del(SessionOAuth2Params))) &&
+//@       (each Fire(_, _, _, _, _) => (before Sess.Del(SessionOAuth2State)) && (before Sess.Del(SessionOAuth2Params)))
+//@   ensures[C14] error_logs_nobody_in: form(r, "error") != "" ==>
+//@       (!emits Sess.Put(_, _) && !emits CallFuncValue(_) && !emits Store.NewFromOAuth2(_, _) && !emits Store.SaveOAuth2(_))
+//@   -- C14/C01: the session names exactly the (provider, uid) pair of the user the
+//@   -- storer built from the provider's answer and saved
+//@   ensures[C14,C01] identity: each Sess.Put(?k, ?v) => k == "uid" &&
+//@       before Store.SaveOAuth2(?u) -> ?e :: e == nil && v == "oauth2;;" ++ provider ++ ";;" ++ OAuth2UID(u) &&
+//@       before Store.NewFromOAuth2(?prov, _) -> (?u2, ?e2) :: e2 == nil && u2 == u && prov == provider
+//@   ensures[C01] halfauth_cleared: each Sess.Put("uid", _) => after Sess.Del("halfauth")
+//@   ensures[C03] login_veto: each Sess.Put("uid", _) =>
+//@       before Fire("Before", EventOAuth2, ?cu, _, _) -> (?hd, ?e) :: hd == false && e == nil &&
+//@       before Store.SaveOAuth2(?u) -> _ :: cu == u
+//@   ensures[C18] no_panic: !panics
+//@   ensures[C18] save_error_outcome: each Store.SaveOAuth2(_) -> ?e => e != nil ==> (result == e && !emits Sess.Put(_, _) && !emits Redirect(_))
+//@
+//@ func (*OAuth2).Start
+//@   property C14 C01
+//@   invariant loop#1 outer: true
+//@   invariant loop#2 inner: true
+//@   ensures[C14] start_issues: each Sess.Put(SessionOAuth2State, ?s) =>
+//@       emits Rand.Read(?n) -> ?e :: e == nil && len(n) == 32 && s == b64url(n)
+//@   ensures[C14] state_always_fresh: each Redirect(_) => emits Sess.Put(SessionOAuth2State, _)
+//@   ensures[C14,C01] no_login: each Sess.Put(?k, _) => k == SessionOAuth2State || k == SessionOAuth2Params
